@@ -46,7 +46,7 @@ class Lib:
     # ------------------------------------------------------------------
     def init_ghosts(self, st, fc):
         eng = self.eng
-        if fc.generator:
+        if fc.generator and not getattr(fc, "stream_out", False):
             st.out = eng.empty_list(st, "U")
             st.ghost["ntok"] = VInt(0)
         u = z3.Const("u!g", U)
@@ -64,6 +64,11 @@ class Lib:
             else:
                 st.ghost[name] = eng.spec_eval(st, init)
         self.ext.init_ghosts(st, fc)
+
+    def init_ghosts_min(self, st):
+        st.ghost["IPOS"] = z3.Const("IPOS0", z3.ArraySort(U, IntS))
+        st.ghost["IOPEN"] = z3.Const("IOPEN0", z3.ArraySort(U, BoolS))
+        st.ghost["YC"] = z3.Const("YC0", YCArr)
 
     def _inner_axioms(self, st):
         """Facts about the inner-iterable ghosts, assumed once per path when
@@ -362,6 +367,12 @@ class Lib:
         eng = self.eng
         E = self.E
         fc = eng.cur
+        if getattr(fc, "stream_out", False):
+            sm = self.stream_model()
+            if isinstance(src, VList):
+                src = VStream(sm.OFSEQ(sm.seq_of_list(st, src)))
+            if sm.yield_from(st, src, line):
+                return
         if isinstance(src, VList):
             self._yield_from_list(st, src, line)
             return
@@ -698,20 +709,97 @@ class Lib:
                 return a.ms
             return a.t
         if shape == "STREAM":
-            return a.t
+            if isinstance(a, VStream):
+                return a.t
+            sm = self.stream_model()
+            return sm.stream_of(st, a)
         if shape == "SEQ":
             return a.t if not isinstance(a, VList) else self.ext.seq_of_list(
                 st, a)
-        if shape == "ArrIntU":
+        if shape in ("U", "func", "optU", "optfunc") and isinstance(a, VRef):
+            return self.stream_model().BOX(a.t)
+        if shape in ("U", "func", "optfunc") and isinstance(a, VFunc) \
+                and a.t is None:
+            t = self.stream_model().func_term(st, a)
+            if t is not None:
+                return t
+        if shape in ("ArrIntU", "ArrIntInt"):
             return a.arr if isinstance(a, VList) else a.t
         return eng.coerce(st, a, shape)
 
     def spec_wrap(self, st, shape, t):
-        if shape in ("MS", "SEQ", "ArrIntU"):
+        if shape in ("MS", "SEQ", "ArrIntU", "ArrIntInt"):
             return VSpecTerm(t)
         if shape == "STREAM":
             return VStream(t)
         return wrap(shape, t)
+
+    def stream_model(self):
+        for m in self.ext.models:
+            if type(m).__name__ == "StreamModel":
+                return m
+        raise self.E.Unsupported("stream model missing")
+
+    def sp_seq(self, st, node):
+        eng = self.eng
+        v = eng.eval(st, node.args[0])
+        sm = self.stream_model()
+        if isinstance(v, VList):
+            return VSpecTerm(sm.seq_of_list(st, v))
+        if isinstance(v, VSpecTerm):
+            return v
+        raise self.E.Unsupported("seq() of this value")
+
+    def sp_EMPTY(self, st, node):
+        return VSpecTerm(self.stream_model().EMPTY)
+
+    def sp_EMPTYS(self, st, node):
+        return VStream(self.stream_model().EMPTYS)
+
+    _REFS = {"sl_ref": "ShardsList", "sli_ref": "ShardListInfo",
+             "si_ref": "ShardInfo", "fi_ref": "FileInfo"}
+
+    def sp_sl_ref(self, st, node):
+        return self._as_ref(st, node, "ShardsList")
+
+    def sp_sli_ref(self, st, node):
+        return self._as_ref(st, node, "ShardListInfo")
+
+    def sp_si_ref(self, st, node):
+        return self._as_ref(st, node, "ShardInfo")
+
+    def sp_fi_ref(self, st, node):
+        return self._as_ref(st, node, "FileInfo")
+
+    def _as_ref(self, st, node, cls):
+        v = self.eng.eval(st, node.args[0])
+        t = v.t if hasattr(v, "t") else None
+        if t is None:
+            raise self.E.Unsupported("ref cast")
+        if t.sort() == U:
+            t = self.stream_model().UNBOX(t)
+        return VRef(t, cls)
+
+    def sp_arr(self, st, node):
+        v = self.eng.eval(st, node.args[0])
+        if not isinstance(v, VList):
+            raise self.E.Unsupported("arr() of a non-list")
+        return VSpecTerm(v.arr)
+
+    def sp_disk_read(self, st, node):
+        p = self.eng.coerce(st, self.eng.eval(st, node.args[0]), "U")
+        return VU(st.ghost["DISK"][p])
+
+    def sp_box(self, st, node):
+        eng = self.eng
+        v = eng.eval(st, node.args[0])
+        return VU(self.stream_model().BOX(v.t))
+
+    def sp_unbox(self, st, node):
+        eng = self.eng
+        v = eng.eval(st, node.args[0])
+        cls = node.args[1].value
+        return VRef(self.stream_model().UNBOX(eng.coerce(st, v, "U")), cls)
 
     def call_value(self, st, fv, node):
         eng = self.eng
@@ -937,11 +1025,71 @@ class Lib:
             return v
         return v
 
+    def apply_property_spec(self, st, pfc, obj):
+        """In specifications a property reads as the value its getter
+        contract fixes (`result is <expr>`)"""
+        eng = self.eng
+        for cl in pfc.ensures:
+            t = cl.text.strip()
+            if t.startswith("result is "):
+                saved = st.locals
+                st.locals = dict(saved)
+                st.locals["self"] = obj
+                try:
+                    return eng.eval(st, eng.spec_parse(t[len("result is "):]))
+                finally:
+                    st.locals = saved
+        raise self.E.Unsupported(f"property {pfc.key} in a specification")
+
+    def apply_summary(self, st, fc, env, line):
+        """Call of a generator function under contract: nothing runs until
+        the result is consumed.  The result is a stream S with
+        not FAILS(S) ==> S == <summary term> (and the summary's normal
+        facts)."""
+        eng = self.eng
+        E = self.E
+        sm = self.stream_model()
+        summ = fc.summary
+        saved_locals = st.locals
+        st.locals = dict(env)
+        try:
+            for k, cl in enumerate(fc.requires):
+                if "iterable" in cl.text and not summ.get("check_all"):
+                    continue
+                eng.oblige(st, f"pre({fc.qualname})", line,
+                           eng.spec_bool(st, cl), cl.props or None,
+                           label=str(k))
+            for k, txt in enumerate(summ.get("requires", [])):
+                eng.oblige(st, f"pre-summary({fc.qualname})", line,
+                           eng.spec_bool(st, txt), None, label=str(k))
+            if fc.decreases and eng.cur is not None and eng.cur.key == fc.key:
+                callee_m = eng.spec_eval(st, fc.decreases).t
+                st.locals = dict(saved_locals)
+                caller_m = eng.spec_eval(st, fc.decreases).t
+                st.locals = dict(env)
+                eng.oblige(st, f"decreases({fc.qualname})", line,
+                           z3.And(callee_m >= 0, callee_m < caller_m), None)
+            term = eng.spec_eval(st, summ["result"])
+            S = st.fresh("S_" + fc.method_name, sm.STREAM)
+            st.assume(z3.Implies(z3.Not(sm.FAILS(S)), S == term.t))
+            for txt in summ.get("normal", []):
+                st.assume(z3.Implies(z3.Not(sm.FAILS(S)),
+                                     eng.spec_bool(st, txt)))
+            for txt in summ.get("always", []):
+                st.assume(eng.spec_bool(st, txt))
+            out = VStream(S)
+            out.elem = summ.get("elem", "U")
+            return out
+        finally:
+            st.locals = saved_locals
+
     def apply_contract(self, st, fc, recv, args, kwargs, line, env=None):
         eng = self.eng
         E = self.E
         if env is None:
             env = self.bind_call(st, fc, recv, args, kwargs, line)
+        if fc.generator and fc.summary:
+            return self.apply_summary(st, fc, env, line)
         saved_locals = st.locals
         saved_ghost_result = st.ghost.get("result")
         saved_old = st.old
@@ -1241,10 +1389,10 @@ class Lib:
         vs = []
         for n in names:
             shape = sorts.get(n, "int")
-            sort = sort_of_shape(shape) if not shape.startswith("ref") else IntS
+            sort = eng.sort_of(shape)
             c = z3.Const(f"{n}!q", sort)
             vs.append(c)
-            st.locals[n] = wrap(shape, c)
+            st.locals[n] = self.spec_wrap(st, shape, c)
         try:
             body = eng.truthy(st, eng.eval(st, lam.body))
         finally:
